@@ -432,3 +432,9 @@ SPECS["C10"]["level_text"] = ("proved (per shape): for a realised tree root -> [
     "the tokeniser (re.split with one capturing group) is an assumed contract. " + SPECS["C10"]["level_text"])
 SPECS["C10"]["not_covered"] = ["trees and paths beyond the proved shapes (bounded monitor)", "re.split semantics (assumed contract)", "the lazy realisation of `children` (construct glue)",
                                "rendering of the resolved item (get_info / itemize)"]
+SPECS["C04"]["level_text"] += (". Added: DECLARATION-TREE obligation for the live RiffStruct (dumped on every run): 'RIFF' + Prefixed(u32le, not including itself) over 'WAVE' + GreedyRange of "
+    "chunks, each a u32le id and a Prefixed(u32le) body switched on the id; fmt body of 16 bytes whose byte rate and block align are COMPUTED (Rebuild) as "
+    "rate*channels*bits//8 and channels*bits//8 (expression trees compared semantically by z3, so an equal rewriting is not an alarm); smpl body of nine u32 "
+    "followed by loop_cnt = len(loops) 24-byte loops; data body = the generator's blocks. With construct's trusted semantics of Prefixed / GreedyRange this gives "
+    "RIFF size = length - 8, chunk sizes adding up, smpl size = 36 + 24*loops")
+SPECS["C04"]["trusted_base"] = SPECS["C04"].get("trusted_base", []) + ["construct 2.10: Prefixed(lengthfield, subcon).build writes len(built subcon) then its bytes; GreedyRange builds every element in order; Lazy/GreedyBytes write the generator's blocks unchanged"]
